@@ -33,7 +33,11 @@ def _reference(I, base, rem, d, w, a):
     return smt.Min(p2, CAP) if not isinstance(p2, int) else min(p2, CAP)
 
 
+HINT = {'amount': 10 ** 6, 'duration': 86400 * 30, 'base_penalty_atomics': 10 ** 17, 'now': 1000, 'expiring_at': 1000 + 86400 * 10, 'now2': 2000}
+
+
 def _setup(I, closed, suffix=''):
+    I.set_hint(HINT)
     a = I.sym('amount' + suffix, lo=1, hi=U128)
     d = I.sym('duration' + suffix, lo=DAY, hi=YEAR)
     base = I.sym('base_penalty_atomics' + suffix, lo=0, hi=E18)
@@ -67,7 +71,7 @@ def k1(I):
         I.outcome('err')
         I.check('no_error_in_valid_range', False)
         return
-    I.cover('ok')
+    I.cover('ok', HINT)
     p = r.f[0]
     I.check('at_most_cap', p <= CAP)
     rem = z3.If(exp >= now, exp - now, 0)
@@ -93,7 +97,7 @@ def k2(I):
     if st == 'panic' or is_err(r):
         I.check('no_failure_in_valid_range', False)
         return
-    I.cover('ok')
+    I.cover('ok', HINT)
     p = r.f[0]
     I.check('at_most_cap', p <= CAP)
     sw, rw = I.try_call('calculate_weight', [Ref([pos.get('lp_asset')], 0), d], CR)
@@ -117,5 +121,5 @@ def k3(I):
     if not (s1 == 'ok' and s2 == 'ok' and is_ok(r1) and is_ok(r2)):
         I.outcome('fail')
         return
-    I.cover('both_ok')
+    I.cover('both_ok', HINT)
     I.check('non_increasing_in_time', r2.f[0] <= r1.f[0])
